@@ -71,6 +71,33 @@ def run_traj(subj, sp, plan, seed, lock=None, obs_out=None):
     return rec
 
 
+def run_lookahead(subj, sp, plan, seed):
+    """The same plan as a look-ahead roll-out: generative_step from state to
+    state while the environment itself stays where reset() left it."""
+    env = subj.env
+    flat = subj.modes["flat_actions"]
+    np.random.seed(seed)
+    env.reset()
+    s = env.current_state.copy()
+    rec = []
+    for op in plan:
+        if op[0] == "reset":
+            s = env.current_state.copy()
+            rec.append(("restart",))
+            continue
+        _, i, vec = op
+        arg = int(i) if flat else (vec if i % 2 else np.array(vec))
+        try:
+            s, o, r, done, info = env.generative_step(s, arg)
+        except Exception as e:      # noqa  a mode that raises has diverged
+            rec.append((s.tensor.tobytes(), 0.0, False,
+                        {"raised": type(e).__name__}))
+            continue
+        rec.append((s.tensor.tobytes(), float(r), bool(done),
+                    norm_info(info)))
+    return rec
+
+
 def case(acc, sp, kw, rng, tier, seed_base):
     z = SIZES[tier]
     pilot = Subject(sp, fully_obs=False, flat_actions=True, flat_obs=True,
@@ -181,6 +208,38 @@ def case(acc, sp, kw, rng, tier, seed_base):
                     break
             acc.count("observation_sets_compared",
                       len(all_obs[MODES[0]]))
+        # ---- the plan as a look-ahead roll-out (generative_step on states
+        # other than the environment's own) under the eight modes
+        if rng.random() < 0.6:
+            ref_la = None
+            for m in MODES:
+                modes = dict(fully_obs=m[0], flat_actions=m[1],
+                             flat_obs=m[2])
+                subj = Subject(sp, scenario=scenario, route=kw.get("route"),
+                               **modes)
+                rec = run_lookahead(subj, sp, plan, seed)
+                acc.evaluations += 1
+                if ref_la is None:
+                    ref_la, la_modes = rec, modes
+                    continue
+                if rec != ref_la:
+                    k = next(j for j in range(len(ref_la))
+                             if rec[j] != ref_la[j])
+                    acc.violation(
+                        "modes_change_dynamics",
+                        "modes_change_dynamics:lookahead",
+                        {"step": k, "modes_a": la_modes, "modes_b": modes,
+                         "a": ref_la[k][1:], "b": rec[k][1:],
+                         "action": plan[k]},
+                        {"kind": "modes", "spec": sp.canonical(),
+                         "route": kw.get("route"), "seed": seed,
+                         "lookahead": True,
+                         "plan": [list(p) for p in plan[:k + 1]],
+                         "modes_a": la_modes, "modes_b": modes})
+                    break
+            acc.count("lookahead_rollouts_compared", 7)
+            if any(len(r) > 1 and r[1] > 0 for r in ref_la):
+                acc.count("lookahead_rollouts_with_gains")
         steps = [r for r in ref if r[0] != "reset"]
         n_succ = sum(1 for r in steps if r[4]["success"])
         n_chance = sum(1 for r in steps if r[4]["undefined_error"])
@@ -286,10 +345,11 @@ def replay(prop, path):
     sp = spec_from_canonical(w["spec"])
     route = w.get("route") if w.get("route") in ("yaml", "dict") else "dict"
     plan = [tuple(p) for p in w["plan"]]
+    fn = run_lookahead if w.get("lookahead") else run_traj
     A = Subject(sp, route=route, **w["modes_a"])
-    ra = run_traj(A, sp, plan, w["seed"])
+    ra = fn(A, sp, plan, w["seed"])
     B = Subject(sp, route=route, scenario=A.scenario, **w["modes_b"])
-    rb = run_traj(B, sp, plan, w["seed"])
+    rb = fn(B, sp, plan, w["seed"])
     if ra != rb:
         print(f"VIOLATION property={prop} replay={path}")
         return 1
